@@ -186,11 +186,11 @@ def pySlice1 (l : Bytes) (e : Int) : Bytes :=
   let e' : Nat := if e < 0 then (e + l.length).toNat else e.toNat
   (l.take e').drop 1
 
-/-- computations that call `read_all` -/
+/-- computations that call `read_all(n, check_rekey)` -/
 inductive Rd (α : Type) where
   | ret : α → Rd α
   | fail : Err → Rd α
-  | read : Int → (Bytes → Rd α) → Rd α
+  | read : Int → Bool → (Bytes → Rd α) → Rd α
 
 structure RecvOut (p : Prims) where
   st : Receiver p
@@ -230,9 +230,9 @@ def liftE {α : Type} : Except Err α → Rd α
 def readEtm {p : Prims} (r : Receiver p) (st : p.CSt) (mk : p.MKey) (header : Bytes) : Rd (RecvOut p) :=
   if header.length < 4 then .fail .structError else
   let psize := beVal (header.take 4)
-  .read (remainingEtm psize r.block) fun more =>
+  .read (remainingEtm psize r.block) false fun more =>
   let packet := header.drop 4 ++ more
-  .read r.macLen fun mac =>
+  .read r.macLen false fun mac =>
   if ctEq ((p.mac mk (be32 r.seq ++ be32 psize ++ packet)).take r.macLen) mac then
     let d := p.dec st packet
     liftE (finish r (.etm d.1 mk) psize d.2 (some ⟨r.seq, [], be32 psize ++ packet⟩))
@@ -242,7 +242,7 @@ def readEtm {p : Prims} (r : Receiver p) (st : p.CSt) (mk : p.MKey) (header : By
 def readAead {p : Prims} (r : Receiver p) (k : p.AKey) (iv : Bytes) (header : Bytes) : Rd (RecvOut p) :=
   if header.length < 4 then .fail .structError else
   let psize := beVal (header.take 4)
-  .read (remainingAead psize r.block r.macLen) fun more =>
+  .read (remainingAead psize r.block r.macLen) false fun more =>
   let packet := header.drop 4 ++ more
   match p.adec k iv packet (header.take 4) with
   | none => .fail .invalidTag
@@ -257,7 +257,7 @@ def readPlain {p : Prims} (r : Receiver p) (header : Bytes) : Rd (RecvOut p) :=
   let psize := beVal (header.take 4)
   let leftover := header.drop 4
   if badBlocking psize leftover.length r.block then .fail .badBlocking else
-  .read (classicSize psize r.macLen leftover.length) fun buf =>
+  .read (classicSize psize r.macLen leftover.length) false fun buf =>
   let packet := leftover ++ buf.take (psize - leftover.length)
   liftE (finish r .plain psize packet none)
 
@@ -268,7 +268,7 @@ def readClassic {p : Prims} (r : Receiver p) (st : p.CSt) (mk : p.MKey) (header 
   let psize := beVal (d0.2.take 4)
   let leftover := d0.2.drop 4
   if badBlocking psize leftover.length r.block then .fail .badBlocking else
-  .read (classicSize psize r.macLen leftover.length) fun buf =>
+  .read (classicSize psize r.macLen leftover.length) false fun buf =>
   let d1 := p.dec d0.1 (buf.take (psize - leftover.length))
   let post := buf.drop (psize - leftover.length)
   let packet := leftover ++ d1.2
@@ -280,7 +280,7 @@ def readClassic {p : Prims} (r : Receiver p) (st : p.CSt) (mk : p.MKey) (header 
 
 /-- `read_message()` -/
 def readMessage {p : Prims} (r : Receiver p) : Rd (RecvOut p) :=
-  .read r.block fun header =>
+  .read r.block true fun header =>
   match r.ciph with
   | .etm st mk => readEtm r st mk header
   | .aead k iv => readAead r k iv header
@@ -298,62 +298,92 @@ inductive Res (α : Type) where
 def runBuf {α : Type} : Rd α → Bytes → Res α
   | .ret a, buf => .ok a buf
   | .fail e, _ => .err e
-  | .read n k, buf =>
+  | .read n _ k, buf =>
     if n ≤ 0 then runBuf (k []) buf
     else if n.toNat ≤ buf.length then runBuf (k (buf.take n.toNat)) (buf.drop n.toNat)
     else .err .eof
 
+/-- what one `recv` call does: `socket.timeout` (with the value the `__need_rekey` flag has at that moment — the
+flag is set by this or another thread when a threshold is hit and cleared by the key switch, so the model lets it
+take any value at any timeout), or data: at most `k+1` bytes -/
+inductive Ev where
+  | timeout (rekeyPending : Bool)
+  | recv (k : Nat)
+  deriving Repr, DecidableEq
+
 /-- the socket: `rem` = `__remainder` (left over from the banner line), `data` = bytes that will still
-arrive, `sched` = one entry per `recv` call: `0` = `socket.timeout`, `k+1` = at most `k+1` bytes are
-returned; when the schedule is used up every `recv(n)` returns all that is there (up to `n`) -/
+arrive, `sched` = one entry per `recv` call; when the schedule is used up every `recv(n)` returns all that is
+there (up to `n`) -/
 structure Sock where
   rem : Bytes
   data : Bytes
-  sched : List Nat
+  sched : List Ev
   deriving Repr
 
-/-- the `while n > 0` loop of `read_all` (`out` accumulates) -/
-def recvLoop : (fuel : Nat) → (n : Nat) → (out data : Bytes) → (sched : List Nat) →
-    Except Err (Bytes × Bytes × List Nat)
-  | _, 0, out, data, sched => .ok (out, data, sched)
-  | 0, _ + 1, _, _, _ => .error .eof
+inductive LoopRes where
+  | ok (out data : Bytes) (sched : List Ev)
+  | err (e : Err)
+  | rekey (sched : List Ev)          -- NeedRekeyException
+
+/-- the `while n > 0` loop of `read_all` (`out` accumulates; `cr` = `check_rekey`) -/
+def recvLoop (cr : Bool) : (fuel : Nat) → (n : Nat) → (out data : Bytes) → (sched : List Ev) → LoopRes
+  | _, 0, out, data, sched => .ok out data sched
+  | 0, _ + 1, _, _, _ => .err .eof
   | fuel + 1, n + 1, out, data, sched =>
     match sched with
-    | 0 :: t => recvLoop fuel (n + 1) out data t                -- timeout: loop again
-    | (k + 1) :: t =>
+    | .timeout nr :: t =>
+      -- `if check_rekey and (len(out) == 0) and self.__need_rekey: raise NeedRekeyException()`
+      if cr && out.isEmpty && nr then .rekey t else recvLoop cr fuel (n + 1) out data t
+    | .recv k :: t =>
       match data with
-      | [] => .error .eof                                       -- `recv` returned b""
+      | [] => .err .eof                                       -- `recv` returned b""
       | _ :: _ =>
         let x := data.take (min (n + 1) (k + 1))
-        recvLoop fuel (n + 1 - x.length) (out ++ x) (data.drop x.length) t
+        recvLoop cr fuel (n + 1 - x.length) (out ++ x) (data.drop x.length) t
     | [] =>
       match data with
-      | [] => .error .eof
+      | [] => .err .eof
       | _ :: _ =>
         let x := data.take (n + 1)
-        recvLoop fuel (n + 1 - x.length) (out ++ x) (data.drop x.length) []
+        recvLoop cr fuel (n + 1 - x.length) (out ++ x) (data.drop x.length) []
 
-/-- `read_all(n)` including the Python slice semantics of `self.__remainder[:n]` for `n < 0` -/
-def readAll (s : Sock) (n : Int) : Except Err (Bytes × Sock) :=
+inductive RaRes where
+  | ok (b : Bytes) (s : Sock)
+  | err (e : Err)
+  | rekey (s : Sock)
+
+/-- `read_all(n, check_rekey)` including the Python slice semantics of `self.__remainder[:n]` for `n < 0` -/
+def readAll (s : Sock) (n : Int) (cr : Bool) : RaRes :=
   let cut : Nat := if n < 0 then (n + s.rem.length).toNat else n.toNat
   let out := if s.rem.isEmpty then [] else s.rem.take cut
   let rem' := if s.rem.isEmpty then [] else s.rem.drop cut
   let n' := n - out.length
-  match recvLoop (n'.toNat + s.sched.length) n'.toNat out s.data s.sched with
-  | .error e => .error e
-  | .ok (o, d, sc) => .ok (o, { rem := rem', data := d, sched := sc })
+  match recvLoop cr (n'.toNat + s.sched.length) n'.toNat out s.data s.sched with
+  | .err e => .err e
+  | .rekey sc => .rekey { rem := rem', data := s.data, sched := sc }
+  | .ok o d sc => .ok o { rem := rem', data := d, sched := sc }
 
 inductive SRes (α : Type) where
   | ok : α → Sock → SRes α
   | err : Err → SRes α
+  | rekey : Sock → SRes α          -- NeedRekeyException propagated to the caller
 
 def runSock {α : Type} : Rd α → Sock → SRes α
   | .ret a, s => .ok a s
   | .fail e, _ => .err e
-  | .read n k, s =>
-    match readAll s n with
-    | .error e => .err e
-    | .ok (b, s') => runSock (k b) s'
+  | .read n cr k, s =>
+    match readAll s n cr with
+    | .err e => .err e
+    | .rekey s' => .rekey s'
+    | .ok b s' => runSock (k b) s'
+
+/-- `Transport.run`: `except NeedRekeyException: continue` — `read_message` is called again -/
+def readRetry {p : Prims} (r : Receiver p) : (fuel : Nat) → Sock → SRes (RecvOut p)
+  | 0, s => .rekey s
+  | fuel + 1, s =>
+    match runSock (readMessage r) s with
+    | .rekey s' => readRetry r fuel s'
+    | x => x
 
 /-! ## operation sequences: messages and key / compressor switches -/
 
@@ -412,8 +442,9 @@ def recvAll {p : Prims} (r : Receiver p) : List (Op p) → Bytes → RecvLog p
 def recvAllSock {p : Prims} (r : Receiver p) : List (Op p) → Sock → List Msg × Option Err × Sock
   | [], s => ([], none, s)
   | .msg _ _ :: ops, s =>
-    match runSock (readMessage r) s with
+    match readRetry r (s.sched.length + 1) s with
     | .err e => ([], some e, s)
+    | .rekey s' => ([], none, s')       -- unreachable: every NeedRekeyException uses up a timeout of the schedule
     | .ok o s' =>
       let l := recvAllSock o.st ops s'
       (o.msg :: l.1, l.2)
